@@ -2233,14 +2233,16 @@ class _GroupElem(ABC):
             x0, y0 = coordinates_n[:, 0].min(), coordinates_n[:, 1].min()
 
             # pixels within the bounds of the element, bounds included (a pixel may lie on an edge)
+            # up to the round-off of the element coordinates, as for any other set of points
+            tol = 1e-12 * max(1.0, np.abs(coordElem).max())
             xe = np.arange(
-                max(np.ceil(coordElem[:, 0].min()), x0),
-                min(np.floor(coordElem[:, 0].max()), x0 + nX - 1) + 1,
+                max(np.ceil(coordElem[:, 0].min() - tol), x0),
+                min(np.floor(coordElem[:, 0].max() + tol), x0 + nX - 1) + 1,
                 dtype=int,
             )
             ye = np.arange(
-                max(np.ceil(coordElem[:, 1].min()), y0),
-                min(np.floor(coordElem[:, 1].max()), y0 + nY - 1) + 1,
+                max(np.ceil(coordElem[:, 1].min() - tol), y0),
+                min(np.floor(coordElem[:, 1].max() + tol), y0 + nY - 1) + 1,
                 dtype=int,
             )
             Xe, Ye = np.meshgrid(xe, ye)
